@@ -108,6 +108,16 @@ STRUCTS = {
         "chains": {"bc": [_d("A", "R_BC", "D"), _d("R_BC", "B", "C")], "cd": [_d("A", "R_CD", "B"), _d("R_CD", "C", "D")]},
         "identical": [["C", "D"]],
     },
+    # (1; 1,1,1) with THREE identical vector particles: the symmetrisation runs over the 3! exchanges, among them the two CYCLIC ones (a permutation that is
+    # not its own inverse - added after seeded change C01-swap_transpose_inverse_permutation)
+    "sid3": {
+        "top": ("A", {"J": 1, "P": -1, "mass": 4.2}),
+        "finals": [("B", {"J": 1, "P": -1, "mass": 0.78}), ("C", {"J": 1, "P": -1, "mass": 0.78}), ("D", {"J": 1, "P": -1, "mass": 0.78})],
+        "res": {"R_BC": {"J": 1, "P": 1, "m0": 2.9, "g0": 0.3}, "R_BD": {"J": 1, "P": 1, "m0": 2.9, "g0": 0.3}, "R_CD": {"J": 1, "P": 1, "m0": 2.9, "g0": 0.3}},
+        "chains": {"bc": [_d("A", "R_BC", "D"), _d("R_BC", "B", "C")], "bd": [_d("A", "R_BD", "C"), _d("R_BD", "B", "D")],
+                   "cd": [_d("A", "R_CD", "B"), _d("R_CD", "C", "D")]},
+        "identical": [["B", "C", "D"]],
+    },
     # four-body (0; 0,0,0,0) with TWO groups of identical spin-0 particles (B~C and D~E): the symmetrisation must combine the groups
     "sid2g": {
         "top": ("A", {"J": 0, "P": -1, "mass": 3.1}),
